@@ -216,6 +216,34 @@ def run_case(spec):
                                     and r0.fun == r.fun):
             out.fail("C19.unknown.run", "unknown names %r altered the run" % (unknown,))
         out.label("unknown-names")
+    # the same options dict object passed to two calls on problems of different dimension: the dict must
+    # not be written to, and the second call must take the documented defaults of *its* dimension
+    if settings and not unknown and "nb_points" not in settings:
+        from cobyqa import minimize
+        import copy as _copy
+
+        shared = {k: v for k, v in settings.items() if k in OPT_NAMES}
+        shared.setdefault("maxfev", 8)
+        snap = _copy.deepcopy(shared)
+        consts_ = {k: v for k, v in settings.items() if k in CONST_NAMES}
+        f3 = lambda x: float((x[0] - 1.0) ** 2 + (x[1] + 0.5) ** 2 + (x[2] - 0.25) ** 2 + x[0] * x[2])
+        with warnings.catch_warnings():
+            warnings.simplefilter("ignore")
+            try:
+                with np.errstate(all="ignore"):
+                    minimize(fun, [0.25, 0.5], options=shared, **consts_)
+                    r3 = minimize(f3, [0.25, 0.5, -0.5], options=shared, **consts_)
+                    r3f = minimize(f3, [0.25, 0.5, -0.5], options=_copy.deepcopy(snap), **consts_)
+                if shared != snap:
+                    out.fail("C19.reuse.mutated", "minimize wrote into the options dict it was given: %r -> %r"
+                             % (snap, shared))
+                elif not (r3.nfev == r3f.nfev and np.array_equal(r3.x, r3f.x) and r3.status == r3f.status):
+                    out.fail("C19.reuse.defaults", "re-using the options dict %r for a problem of another dimension "
+                             "changed the run (nfev %d vs %d)" % (snap, r3.nfev, r3f.nfev))
+            except Exception as exc:
+                out.fail("C19.reuse.exc", "re-using the options dict %r for a problem of another dimension raised "
+                         "%s: %s" % (snap, type(exc).__name__, exc))
+        out.label("dict-reused")
     # completed settings
     opts = {k: v for k, v in settings.items() if k in OPT_NAMES}
     consts = {k: v for k, v in settings.items() if k in CONST_NAMES}
